@@ -309,6 +309,9 @@ func saslRawCases() []job {
 // to show up in the metadata until the context ends.)
 var transportAPIs = []int16{18, 3, 10, 1, 0, 2, 11, 14, 9, 12, 20, 16, 22, 42, 17, 36, 15, 8, 13}
 
+// adminAPIs: the transaction and admin APIs that have a Client method (thorough tier).
+var adminAPIs = []int16{24, 25, 26, 28, 29, 30, 31, 32, 33, 37, 43, 44, 45, 46, 47, 48, 49, 50, 51}
+
 // TestTransport sends a sample of the frames of TestMutations through
 // kafka.Transport.RoundTrip, and the raw SASL response length through both
 // saslauthenticate.Request.RawExchange and a Transport configured for SASL
@@ -333,10 +336,14 @@ func TestTransport(t *testing.T) {
 		return "transport"
 	}
 
+	apis := transportAPIs
+	if thorough {
+		apis = append(append([]int16{}, transportAPIs...), adminAPIs...)
+	}
 	// corpus: one frame per (api, version) of the sample
 	var corpus []*corpusFrame
 	k := 0
-	for _, key := range transportAPIs {
+	for _, key := range apis {
 		a := refcodec.MustLookup(key)
 		vers := versionsFor(a, thorough, seed)
 		if a.Key == 18 {
